@@ -247,7 +247,13 @@ func VxH15out() {
 	got := ""
 	kind = vxRun(func() { got = p.PathFuncs["dflt"](t) })
 	vxAssert(kind == "returned", "C15.default-formed")
-	exp := vxRefBasename(in) + "." + vxRefBasename(in2) + ".my_proc.aa_1.par_" + par + ".b_2.tag_" + tag + ".dflt.csv"
+	stem := vxRefBasename(in) + "." + vxRefBasename(in2) + ".my_proc.aa_1.par_" + par + ".b_2.tag_" + tag
 	vxReach("default")
-	vxAssert(got == exp, "C15.default-name")
+	vxAssert(got == stem+".dflt.csv", "C15.default-name")
+	// the second out-port is default-named too: every port gets its own name and extension
+	got2 := ""
+	vxMapOrderOff()
+	kind = vxRun(func() { got2 = p.PathFuncs["out"](t) })
+	vxAssert(kind == "returned", "C15.default-formed")
+	vxAssert(got2 == stem+".out", "C15.default-name")
 }
